@@ -172,6 +172,10 @@ func vSymName(tag string, n int) string {
 // vPayloadFork: set by a harness that wants the default value of the top-level document to fork over shapes
 var vPayloadFork bool
 
+// vExtUpper: set by a harness that wants the first extension name of the top-level document to start with
+// either "x-" or "X-" (tier parameter ext_upper)
+var vExtUpper bool
+
 func vAnyVal(tag string, depth int) vJ {
 	k := vParam("any_shapes", 2)
 	shape := 0
@@ -278,6 +282,13 @@ func vBuildDoc(kind string, depth int, tag string, o vDocOpts) vJ {
 	if depth > 0 && vExtensible[kind] {
 		for i := 0; i < o.exts; i++ {
 			name := "x-" + vSymName(tag+".ext", o.nameLen) + string(rune('0'+i)) // the meta-schemas admit ^x- only (lower case)
+			if tag == "d" && vParam("ext_upper", 0) == 1 && vExtUpper {
+				// the decoders take the prefix in either case and the encoders emit the name as held: the
+				// first byte is a solver variable over {x, X} (no fork unless the code looks at it)
+				pfx := vNondetStr(tag+".ext.pfx", 1)
+				vAssume(vInSet(pfx[0], "xX"))
+				name = pfx + name[1:]
+			}
 			if tag == "d" {
 				vTopNames = append(vTopNames, name)
 			}
@@ -426,16 +437,25 @@ func vBuildVal(kw vKW, depth int, tag string, o vDocOpts) vJ {
 
 func vBuildPaths(depth int, tag string, o vDocOpts) vJ {
 	doc := vJObj()
+	if tag == "d" {
+		vTopNames = nil
+	}
 	if depth == 0 {
 		return doc
 	}
 	n := 1 + vVar(o.sizes, tag+".n")
 	for i := 0; i < n; i++ {
 		name := "/" + vSymName(tag+".path", o.nameLen) + string(rune('0'+i))
+		if tag == "d" {
+			vTopNames = append(vTopNames, name)
+		}
 		vJAdd(doc, true, name, vBuildDoc("pathItem", depth-1, tag+".item", o))
 	}
 	for i := 0; i < o.exts; i++ {
 		name := "x-" + vSymName(tag+".ext", o.nameLen) + string(rune('0'+i))
+		if tag == "d" {
+			vTopNames = append(vTopNames, name)
+		}
 		vJAdd(doc, vNondetBool(tag+".ext.present"), name, vAnyVal(tag+".extval", 1))
 	}
 	return doc
